@@ -124,8 +124,14 @@ Gen<Op> gOpOfKind(const std::string &kind, const HistCfg &h) {
                         [](const std::tuple<int, int> &t) { return mkOp("rmvtx", {S(std::get<0>(t)), S(std::get<1>(t))}); });
     if (kind == "resize")
         return gen::map(uni(0, 4), [](int k) { return mkOp("resize", {S(k)}); });
-    if (kind == "rmloops" || kind == "clear" || kind == "dedup")
+    if (kind == "rmloops" || kind == "clear" || kind == "dedup" || kind == "badall")
         return gen::just(mkOp(kind, {}));
+    if (kind == "bad")
+        return gen::map(gen::tuple(uni(0, 64), uni(0, 3), uni(0, 4), uni(0, 64), gVtx(), gVtx()), [](const std::tuple<int, int, int, int, int, int> &t) {
+            return mkOp("bad", {S(std::get<0>(t)), S(std::get<1>(t)), S(std::get<2>(t)), S(std::get<3>(t)), S(std::get<4>(t)), S(std::get<5>(t))});
+        });
+    if (kind == "shrink")
+        return gen::map(uni(0, 12), [](int k) { return mkOp("shrink", {S(k)}); });
     throw std::runtime_error("unknown op kind in mix: " + kind);
 }
 
@@ -150,6 +156,7 @@ Gen<Case> makeHistGen(const Cfg &cfg) {
     std::string fin = cfgGet(cfg, "final", "");
     bool pairvalues = cfgInt(cfg, "pairvalues", 0) != 0;
     std::string labelsets = cfgGet(cfg, "labelsets", "");
+    int zeroPct = (int)cfgInt(cfg, "zero_pct", 0);
 
     return gen::exec([=]() {
         std::string cl = *gen::resize(kNominalSize, gen::elementOf(classes));
@@ -185,7 +192,7 @@ Gen<Case> makeHistGen(const Cfg &cfg) {
             c.set("pairvalues", "1");
         if (!labelsets.empty())
             c.set("labelsets", labelsets);
-        c.set("n0", S(*gN0()));
+        c.set("n0", S(*uni(0, 100) < zeroPct ? 0 : *gN0()));
         // weighted choice among the op generators (weightedOneOf only takes a literal list)
         std::size_t total = 0;
         for (auto &g : gens)
